@@ -215,6 +215,9 @@ def _get_unused_imports(ast_tree: ast.Module) -> Collection[str]:
             full_name = re.sub(r"\.[^\.]*$", "", full_name)
             names.add(full_name)
 
+    # `import a.b` binds the name `a`, so it is in use whenever `a` is.
+    names.update(name for name in imports if name.split(".")[0] in names)
+
     return imports - names
 
 
